@@ -31,6 +31,8 @@ from pathlib import Path
 
 VERIF = Path(__file__).resolve().parent.parent
 REPO = Path(os.environ.get("VERIF_REPO", "/repo"))
+# evidence directory (overridden when a check is pointed at a seeded worktree, so that the committed evidence is not overwritten)
+EVID = Path(os.environ.get("VERIF_EVIDENCE_DIR", str(VERIF / "evidence")))
 SRC = REPO / "penguin" / "src" / "server" / "service.rs"
 
 HEADER_KEYS = {
@@ -486,7 +488,7 @@ def main():
             tier = sys.argv[i + 1]
     seed = int(os.environ.get("VERIF_SEED", "0") or 0)
     t0 = time.time()
-    evp = VERIF / "evidence" / "C14.json"
+    evp = EVID / "C14.json"
     evp.parent.mkdir(exist_ok=True)
     queries, lines, viol, inconc = [], [], 0, None
     known = []
@@ -530,7 +532,7 @@ def main():
         if w1["z3"] != "sat" or w2["z3"] != "sat" or w1["cvc5"] != "sat" or w2["cvc5"] != "sat":
             raise Inconclusive("vacuity witness failed: the encoded gate can never upgrade / never refuse")
         bad = [q for q in (q1, q2, q3) if q["z3"] == "sat"]
-        replay_dir = VERIF / "evidence" / "replay"
+        replay_dir = EVID / "replay"
         scratch = Path(os.environ.get("VERIF_SCRATCH", "/var/tmp")) / f"verif-C14-{os.getpid()}"
         for q in bad:
             v = model_to_atoms(q["model"])
